@@ -150,7 +150,10 @@ impl Ord for Number {
         if self.value < other.value {
             Ordering::Less
         } else if self.value == other.value {
-            Ordering::Equal
+            // Same magnitude: order by unit, so that `cmp` is `Equal` only for equal numbers
+            self.unit
+                .partial_cmp(&other.unit)
+                .unwrap_or(Ordering::Equal)
         } else {
             Ordering::Greater
         }
